@@ -412,7 +412,33 @@ fn scalar_json<'tcx>(cx: &Cx<'tcx>, s: Scalar, ty: Ty<'tcx>) -> J {
                         // &[u8; N] byte-string literal or &[T; N]
                         J::Obj(vec![("ref_bytes".into(), bytes_json(b))])
                     } else {
-                        J::Obj(vec![("ptr".into(), J::Str("alloc-with-ptrs".into()))])
+                        // `&&T` style promoted: an allocation holding exactly one pointer; follow it
+                        let mut cur = a;
+                        let mut depth = 1;
+                        let mut res = J::Obj(vec![("ptr".into(), J::Str("alloc-with-ptrs".into()))]);
+                        while depth < 4 {
+                            let inner = cur.inner();
+                            let ptrs = inner.provenance().ptrs();
+                            if ptrs.len() != 1 || inner.len() != 8 {
+                                break;
+                            }
+                            let (_o, prov) = ptrs.iter().next().map(|(o, p)| (*o, *p)).unwrap();
+                            match cx.tcx.try_get_global_alloc(prov.alloc_id()) {
+                                Some(GlobalAlloc::Memory(n)) => {
+                                    if let Some(b) = alloc_bytes(n.inner()) {
+                                        res = J::Obj(vec![
+                                            ("ref_bytes".into(), bytes_json(&b)),
+                                            ("ref_depth".into(), J::Num(depth + 1)),
+                                        ]);
+                                        break;
+                                    }
+                                    cur = n;
+                                    depth += 1;
+                                }
+                                _ => break,
+                            }
+                        }
+                        res
                     }
                 }
                 Some(GlobalAlloc::Static(d)) => {
@@ -499,38 +525,17 @@ fn export_body<'tcx>(cx: &Cx<'tcx>, ldid: LocalDefId, kind: DefKind) -> J {
         locals.push(J::Obj(o));
     }
 
-    let mut blocks = Vec::new();
-    for (_bb, data) in body.basic_blocks.iter_enumerated() {
-        let mut stmts = Vec::new();
-        for st in &data.statements {
-            match &st.kind {
-                StatementKind::Assign(b) => {
-                    let (pl, rv) = &**b;
-                    stmts.push(J::Obj(vec![
-                        ("k".into(), J::Str("assign".into())),
-                        ("p".into(), place(cx, body, pl)),
-                        ("r".into(), rvalue(cx, body, tenv, rv, st.source_info.span)),
-                        ("line".into(), J::Num(cx.line(st.source_info.span))),
-                    ]));
-                }
-                StatementKind::SetDiscriminant { place: pl, variant_index } => {
-                    stmts.push(J::Obj(vec![
-                        ("k".into(), J::Str("setdiscr".into())),
-                        ("p".into(), place(cx, body, pl)),
-                        ("vi".into(), J::Num(variant_index.as_usize() as i128)),
-                        ("line".into(), J::Num(cx.line(st.source_info.span))),
-                    ]));
-                }
-                _ => {}
-            }
+    let blocks = blocks_json(cx, body, tenv);
+    let mut promoted = Vec::new();
+    for pb in tcx.promoted_mir(did).iter() {
+        let mut pl = Vec::new();
+        for d in pb.local_decls.iter() {
+            pl.push(J::Obj(vec![("ty".into(), J::Str(d.ty.to_string()))]));
         }
-        let term = data.terminator();
-        let tj = terminator(cx, body, tenv, term);
-        let mut o = vec![("s".into(), J::Arr(stmts)), ("t".into(), tj)];
-        if data.is_cleanup {
-            o.push(("cleanup".into(), J::Bool(true)));
-        }
-        blocks.push(J::Obj(o));
+        promoted.push(J::Obj(vec![
+            ("locals".into(), J::Arr(pl)),
+            ("blocks".into(), J::Arr(blocks_json(cx, pb, tenv))),
+        ]));
     }
 
     // parent + impl info
@@ -543,6 +548,7 @@ fn export_body<'tcx>(cx: &Cx<'tcx>, ldid: LocalDefId, kind: DefKind) -> J {
         ("arg_count".into(), J::Num(body.arg_count as i128)),
         ("locals".into(), J::Arr(locals)),
         ("blocks".into(), J::Arr(blocks)),
+        ("promoted".into(), J::Arr(promoted)),
     ];
     if let Some(p) = parent {
         o.push(("parent".into(), J::Str(p)));
@@ -577,6 +583,44 @@ fn export_body<'tcx>(cx: &Cx<'tcx>, ldid: LocalDefId, kind: DefKind) -> J {
         ));
     }
     J::Obj(o)
+}
+
+fn blocks_json<'tcx>(cx: &Cx<'tcx>, body: &Body<'tcx>, tenv: TypingEnv<'tcx>) -> Vec<J> {
+    let mut blocks = Vec::new();
+    for (_bb, data) in body.basic_blocks.iter_enumerated() {
+        let mut stmts = Vec::new();
+        for st in &data.statements {
+            match &st.kind {
+                StatementKind::Assign(b) => {
+                    let (pl, rv) = &**b;
+                    stmts.push(J::Obj(vec![
+                        ("k".into(), J::Str("assign".into())),
+                        ("p".into(), place(cx, body, pl)),
+                        ("r".into(), rvalue(cx, body, tenv, rv, st.source_info.span)),
+                        ("line".into(), J::Num(cx.line(st.source_info.span))),
+                    ]));
+                }
+                StatementKind::SetDiscriminant { place: pl, variant_index } => {
+                    stmts.push(J::Obj(vec![
+                        ("k".into(), J::Str("setdiscr".into())),
+                        ("p".into(), place(cx, body, pl)),
+                        ("vi".into(), J::Num(variant_index.as_usize() as i128)),
+                        ("line".into(), J::Num(cx.line(st.source_info.span))),
+                    ]));
+                }
+                _ => {}
+            }
+        }
+        let term = data.terminator();
+        let tj = terminator(cx, body, tenv, term);
+        let mut o = vec![("s".into(), J::Arr(stmts)), ("t".into(), tj)];
+        if data.is_cleanup {
+            o.push(("cleanup".into(), J::Bool(true)));
+        }
+        blocks.push(J::Obj(o));
+    }
+
+    blocks
 }
 
 fn place<'tcx>(cx: &Cx<'tcx>, body: &Body<'tcx>, pl: &Place<'tcx>) -> J {
@@ -645,8 +689,8 @@ fn operand<'tcx>(
             // named constant?
             if let Const::Unevaluated(uv, _) = c.const_ {
                 o.push(("named".into(), J::Str(cx.path(uv.def))));
-                if uv.promoted.is_some() {
-                    o.push(("promoted".into(), J::Bool(true)));
+                if let Some(pi) = uv.promoted {
+                    o.push(("promoted".into(), J::Num(pi.as_usize() as i128)));
                 }
             }
             let needs_mono = match c.const_ {
